@@ -103,7 +103,16 @@ def multi_shape(mods) -> list[tuple[str, bool]]:
 
 def format_code_stage_attrs(mods) -> list[str]:
     """every `module.attr(...)` call target of format_code on a pyrefact module / rmspace / textwrap"""
-    tree = ast.parse(_textwrap.dedent(inspect.getsource(mods["main"].format_code)))
+    fn = getattr(mods["main"], "_format_code", None)
+    if fn is None:
+        raise ShapeError("main._format_code (the pipeline behind the format_code wrapper) is gone")
+    wrapper = ast.parse(_textwrap.dedent(inspect.getsource(mods["main"].format_code)))
+    wbody = ast.Module(body=wrapper.body[0].body, type_ignores=[])
+    wcalls = [_n.func.id for _n in ast.walk(wbody) if isinstance(_n, ast.Call) and isinstance(_n.func, ast.Name)]
+    wattr = [_call_name(_n) for _n in ast.walk(wbody) if _call_name(_n)]
+    if wcalls != ["_format_code", "_format_code"] or any(a.split(".")[0] in PYREFACT_MODS + ("rmspace", "textwrap") for a in wattr):
+        raise ShapeError(f"main.format_code is no longer the plain wrapper around _format_code: calls {wcalls} {wattr}")
+    tree = ast.parse(_textwrap.dedent(inspect.getsource(fn)))
     names = []
     for node in ast.walk(tree):
         n = _call_name(node)
@@ -143,32 +152,59 @@ class TStr(str):
     def strip(self, chars=None):
         return "" if self.env.script["blank"][self.sid] else "x"
 
+    # the wrapper main.format_code: source[-1], source + "\n", formatted.endswith("\n"), formatted[:-1]
+    def __getitem__(self, k):
+        sc = self.env.script
+        if sc is not None and isinstance(k, int) and k == -1:
+            return "\n" if sc["terminated"][self.sid] else "x"
+        if sc is not None and isinstance(k, slice) and (k.start, k.stop, k.step) == (None, -1, None):
+            self.env.wrapper_ops.append("drop_last")
+            return self.env.state(sc["drop_last"][self.sid])
+        return str.__getitem__(self, k)
+
+    def __add__(self, other):
+        sc = self.env.script
+        if sc is not None and isinstance(other, str) and not isinstance(other, TStr) and other == "\n":
+            self.env.wrapper_ops.append("add_nl")
+            t = sc["add_nl"][self.sid]
+            return self.env.state(t, skip=sc["skip"][t])
+        return str.__add__(self, other)
+
+    def endswith(self, suffix, *a):
+        sc = self.env.script
+        if sc is not None and suffix == "\n" and not a:
+            return bool(sc["ends_lf"][self.sid])
+        return str.endswith(self, suffix, *a)
+
 
 def state_text(i: int) -> str:
-    return f"u{i} = 0\ndef f{i}():\n    pass\nclass C{i}:\n    def m(self):\n        pass\n"
+    # a module-level assignment, a function, a class with a method, a nested class and an attribute:
+    # every ingredient of the safe-mode preserve set of main.format_code (defs, class_funcs,
+    # class_members, assignments)
+    return (f"u{i} = 0\ndef f{i}():\n    pass\nclass C{i}:\n    a{i} = 1\n    def m{i}(self):\n        pass\n"
+            f"    class N{i}:\n        pass\n")
+
+
+_NAME_CODES = [(r"u(\d+)", 1), (r"f(\d+)", 2), (r"C(\d+)", 3), (r"C(\d+)\.m\1", 4), (r"m(\d+)", 5),
+               (r"N(\d+)", 6), (r"a(\d+)", 7)]
 
 
 def name_code(name: str) -> int:
     import re
-    m = re.fullmatch(r"u(\d+)", name)
-    if m:
-        return 10 * int(m.group(1)) + 1
-    m = re.fullmatch(r"f(\d+)", name)
-    if m:
-        return 10 * int(m.group(1)) + 2
-    m = re.fullmatch(r"C(\d+)", name)
-    if m:
-        return 10 * int(m.group(1)) + 3
-    m = re.fullmatch(r"C(\d+)\.m", name)
-    if m:
-        return 10 * int(m.group(1)) + 4
+    for pat, k in _NAME_CODES:
+        m = re.fullmatch(pat, name)
+        if m:
+            return 10 * int(m.group(1)) + k
     if name == "zz":
-        return 7
+        return 9
     return 99999
 
 
 def surface_codes(i: int) -> list[int]:
-    return [10 * i + 1, 10 * i + 2, 10 * i + 3, 10 * i + 4]
+    """module-level names of state i as main.format_code (safe=True) must compute them:
+    u_i (assignment), f_i, C_i (defs), C_i.m_i (class_funcs), m_i, N_i, a_i (class_members);
+    NOT C_i.N_i (class_funcs holds functions only)"""
+    return [10 * i + k for k in (1, 2, 3, 4, 5, 6, 7)]
 
 
 class Env:
@@ -183,6 +219,7 @@ class Env:
         self.trace: list[int] = []
         self.pres_seen: list = []
         self.notes: list[str] = []
+        self.wrapper_ops: list[str] = []
         self._states: dict[int, TStr] = {}
         self._saved = []
         # codes of the multi stages by position
@@ -312,7 +349,7 @@ class Env:
     # -- one scripted run of the real format_code
     def run(self, script) -> dict:
         self.script = script
-        self.trace, self.pres_seen, self.notes = [], [], []
+        self.trace, self.pres_seen, self.notes, self.wrapper_ops = [], [], [], []
         src = self.state(script["input"], skip=script["skip"][script["input"]])
         kw = dict(safe=script["safe"], keep_imports=script["keep"], preserve=frozenset(script["p0"]))
         self.mods["core"].parse.cache_clear()
@@ -328,7 +365,8 @@ class Env:
                 self.notes.append("stages received different preserve collections")
             pres = sorted({name_code(n) for n in self.pres_seen[0]})
         o = 9998 if err else (script["input"] if out is src else self.sid(out))
-        return {"out": o, "trace": list(self.trace), "pres": pres, "error": err, "notes": list(self.notes)}
+        return {"out": o, "trace": list(self.trace), "pres": pres, "error": err, "notes": list(self.notes),
+                "wrapper": list(self.wrapper_ops)}
 
 
 # ------------------------------------------------------------------------------------------------
@@ -349,7 +387,8 @@ def base_script(n: int) -> dict:
     tb = {k: ident(n) for k in FIXED_TABLE_KEYS if k != "tabs"}
     return {"n": n, "safe": False, "keep": False, "p0": [], "input": 0,
             "skip": [False] * n, "blank": [False] * n, "valid": [True] * n, "indent": [0] * n,
-            "tabs": ident(n), "tables": tb, "pres_tables": {}, "minws": [ident(n) for _ in range(n)]}
+            "tabs": ident(n), "tables": tb, "pres_tables": {}, "minws": [ident(n) for _ in range(n)],
+            "terminated": [True] * n, "add_nl": ident(n), "ends_lf": [True] * n, "drop_last": ident(n)}
 
 
 def rand_table(rnd, n, p_ident=0.6):
@@ -372,6 +411,11 @@ def decorate(script: dict, rnd: random.Random, env: Env, heavy=True):
         script["blank"] = [rnd.random() < 0.25 for _ in range(n)]
     if rnd.random() < 0.1:
         script["skip"] = [rnd.random() < 0.3 for _ in range(n)]
+    if rnd.random() < 0.3:
+        script["terminated"] = [rnd.random() < 0.5 for _ in range(n)]
+        script["add_nl"] = rand_table(rnd, n, 0.3)
+        script["ends_lf"] = [rnd.random() < 0.7 for _ in range(n)]
+        script["drop_last"] = rand_table(rnd, n, 0.3)
     script["p0"] = rnd.choice([[], [], ["zz"], [f"u{rnd.randrange(n)}"]])
     pres_names = [nm for nm, pr in env.multi if pr]
     if pres_names and rnd.random() < 0.4:
@@ -385,6 +429,8 @@ def set_mode(script, mode: str, rnd):
     n, x = script["n"], script["input"]
     if mode == "top":
         return
+    if not script["terminated"][x]:
+        x = script["add_nl"][x]
     t = script["tabs"][x]
     t = script["tables"]["rmspace.format_str"][t]
     t = script["tables"]["fixes.fix_too_many_blank_lines"][t]
@@ -547,6 +593,8 @@ def script_to_coq(env: Env, s: dict, obs: dict, passes: int) -> str:
         gtb(t["fixes.remove_unused_imports"]), gtb(t["fixes.sort_imports"]), gtb(t["fixes.fix_line_lengths"]),
         gtb(t["textwrap.indent"]),
         ("[]" if all(list(r) == ident(n) for r in s["minws"]) else glist(s["minws"], gtb)),
+        ("[]" if all(s["terminated"]) else glist(s["terminated"], gbool)), gtb(s["add_nl"]),
+        ("[]" if all(s["ends_lf"]) else glist(s["ends_lf"], gbool)), gtb(s["drop_last"]),
         gn(len(env.multi_names)), gn(passes), "mc",
         gn(obs["out"]), gnl(compress_trace(obs["trace"], env.multi_codes)), exp_pres,
     ]
@@ -624,6 +672,9 @@ def format_code_correspondence(mods, wd: Path, tier: str, seed: int, part: str =
             npass = sum(1 for c in o["trace"] if c == env.multi_codes[0])
             hk = f"{key} passes={npass if npass < 4 else ('4..' + str(N) if npass <= N else '>' + str(N))}"
             hist[hk] = hist.get(hk, 0) + 1
+            if o["wrapper"]:
+                wk = "wrapper: " + "+".join(o["wrapper"])
+                hist[wk] = hist.get(wk, 0) + 1
             if npass >= 2:
                 distinct.add((tuple(o["trace"]), o["out"], s["input"], s["safe"], s["keep"]))
     finally:
@@ -726,6 +777,33 @@ def early_return_check(mods) -> list[dict]:
                 bad.append({"case": name, "source": src, "out": out,
                             "problem": "invalid/blank input changed beyond whitespace"})
     return bad
+
+
+def wrapper_check(mods, sources) -> tuple[int, list[dict]]:
+    """main.format_code vs its definition as a wrapper (DriverModel.format_code_outer with the real
+    _format_code behaviour read off newline-terminated inputs): for a non-empty source whose last
+    character is not a line break, format_code(s) = drop-one-LF(format_code(s + LF)); otherwise the two
+    calls are the same call.  Real strings, real stages."""
+    main = mods["main"]
+    bad, n = [], 0
+    for src in sources:
+        for safe, keep in ((False, False), (True, True)):
+            if not src or src[-1] in "\r\n":
+                continue
+            n += 1
+            res = []
+            for text in (src, src + "\n"):
+                mods["core"].parse.cache_clear()
+                try:
+                    with common.quiet():
+                        res.append(main.format_code(text, safe=safe, keep_imports=keep))
+                except Exception as e:  # noqa
+                    res.append(f"<raised {type(e).__name__}>")
+            exp = res[1][:-1] if res[1].endswith("\n") and not res[1].startswith("<raised") else res[1]
+            if res[0] != exp:
+                bad.append({"source": src, "safe": safe, "keep_imports": keep, "format_code(s)": res[0],
+                            "format_code(s + LF)": res[1], "expected": exp})
+    return n, bad
 
 
 # ------------------------------------------------------------------------------------------------
